@@ -200,17 +200,27 @@ def _sstr(s):
     return struct.pack(">h", len(b)) + b
 
 
-def metadata_response(corr, reply):
-    """Hand-packed Metadata response v0 with no brokers; reply: [(topic, error code, [partition id, ...])]."""
-    msg = struct.pack(">ii", corr, 0) + struct.pack(">i", len(reply))
+def metadata_response(corr, reply, leaderless=None):
+    """Hand-packed Metadata response v0; reply: [(topic, error code, [partition id, ...])].
+    `leaderless`: None = no broker listed, every partition without a leader (-1); otherwise a set of
+    (topic, partition) that have no leader right now (partition error 5 LEADER_NOT_AVAILABLE, leader
+    -1) while every other partition is led by broker 1, which the response lists."""
+    if leaderless is None:
+        msg = struct.pack(">ii", corr, 0)
+    else:
+        msg = struct.pack(">ii", corr, 1) + struct.pack(">i", 1) + _sstr("broker1") + struct.pack(">i", 9092)
+    msg += struct.pack(">i", len(reply))
     for topic, err, parts in reply:
         msg += struct.pack(">h", err) + _sstr(topic) + struct.pack(">i", len(parts))
         for p in parts:
-            msg += struct.pack(">hiii", 0, p, -1, 0) + struct.pack(">i", 0)
+            if leaderless is None or (topic, p) in leaderless:
+                msg += struct.pack(">hiii", 0 if leaderless is None else 5, p, -1, 0) + struct.pack(">i", 0)
+            else:
+                msg += struct.pack(">hiii", 0, p, 1, 1) + struct.pack(">i", 1) + struct.pack(">i", 1) + struct.pack(">i", 1)
     return msg
 
 
-def run_loader(asked, replies):
+def run_loader(asked, replies, leaderless=None):
     """Drive the REAL KafkaClient._load_topic_partitions(*asked): the k-th metadata request is answered with replies[k]
     (the real decoder parses the bytes); when the replies run out the next request is never answered.
     -> ("snap", {topic: [ids]} in dict order, requests sent) | ("pending", None, requests sent) | ("error", class name, n)"""
@@ -226,7 +236,7 @@ def run_loader(asked, replies):
         sent.append(correlation_id)
         if len(sent) > len(replies):
             return defer.Deferred()
-        return defer.succeed(metadata_response(correlation_id, replies[len(sent) - 1]))
+        return defer.succeed(metadata_response(correlation_id, replies[len(sent) - 1], leaderless))
 
     client._send_broker_unaware_request = answer
     out = []
